@@ -454,7 +454,7 @@ func shutdownScenario(param string) vsched.Scenario {
 
 func main() {
 	harness.Register("shutdown", shutdownScenario)
-	shutdownWork, _ = os.MkdirTemp("", "c20s")
+	shutdownWork = harness.TempDir("c20s")
 	defer os.RemoveAll(shutdownWork)
 	harness.WorkerMain()
 	c := harness.Start("C20")
